@@ -27,7 +27,9 @@ def run(tier, seed):
     cfg = V.write_cfg(os.path.join(wd, "mc.cfg"), constants={"N": n, "Vals": "{1, 2}", "AsIs": "{}"}, invariants=["LabelIndexOk", "PropIndexOk"])
     r = V.tlc(MC, cfg, name="C14mc", workers=8, timeout=1800, coverage=True)
     V.log(f"[C14] TLC MC_LpgIndex: {r.summary()}")
-    if not r.ok:
+    if r.timeout:
+        rep.notes.append(f"MC_LpgIndex timed out: {r.distinct} distinct states explored without violation")
+    elif not r.ok:
         rep.violation(f"TLC: {r.violation} in MC_LpgIndex", {"tlc": V.tlc_trace_text(r)[-4000:]}, tag="mc")
     mcs = [{"config": f"index mechanism vs definitions, N={n}", **r.summary()}]
     cfg2 = V.write_cfg(os.path.join(wd, "mc-sw.cfg"), constants={"N": "{1, 2}", "Vals": "{1, 2}", "AsIs": '{"DeleteKeepsIndexEntries"}'}, invariants=["PropIndexOk"])
